@@ -43,6 +43,10 @@ def main():
                 continue
             meta = json.load(open(os.path.join(d, "meta.json")))
             prop = meta.get("check_property") or meta["property"]
+            if meta.get("expected_caught") is False:
+                results[mid] = {"property": prop, "status": "out-of-reach", "caught": False, "why": meta.get("why_not_caught", "")[:200]}
+                print(mid, "out of reach (recorded as such)")
+                continue
             applied = None
             for pf in ("patch.rebased.diff", "patch.diff"):
                 pth = os.path.join(d, pf)
@@ -84,7 +88,7 @@ def main():
         shutil.rmtree(scratch, ignore_errors=True)
         shutil.rmtree("/tmp/uxverif-regress-scratch", ignore_errors=True)
     head = sh(["git", "-C", "/repo", "log", "--format=%h", "-1"])[1].strip()
-    summary = {"repo_head": head, "seed": int(seed), "n": len(results), "caught": sum(1 for r in results.values() if r.get("caught")), "results": results}
+    summary = {"repo_head": head, "seed": int(seed), "n": len(results), "caught": sum(1 for r in results.values() if r.get("caught")), "out_of_reach": sum(1 for r in results.values() if r.get("status") == "out-of-reach"), "results": results}
     out = os.path.join(V, "seeded", "REGRESSION.json")
     if only and os.path.exists(out):
         # merge a partial re-run into the existing record
